@@ -36,7 +36,9 @@ def main():
         tb = traceback.format_exc()
         ctx.violate('corr', f'harness:{type(e).__name__}',
                     f'correspondence harness could not run on the current tree: {e!r}\n{tb[-1500:]}')
-    if ctx.violations and not any(v.kind == 'property' for v in ctx.violations) and hasattr(mod, 'search'):
+    findings = fw.load_findings()
+    unknown = [v for v in ctx.violations if fw.match_finding(findings, a.pid, v.key) is None]
+    if unknown and not any(v.kind == 'property' for v in unknown) and hasattr(mod, 'search'):
         try:
             mod.search(ctx)
         except Exception as e:
